@@ -19,11 +19,23 @@ ASSUMPTIONS = [
     'weights: |impl - model| <= 2^-40 * (conditioning of the weight formula) ; expectation/variance: model = moments_to_'
     'expectation_variance on the implementation\'s combined integral, |impl - model| <= 2^-45 * (|mom2| + mom1^2)',
     'first moments of the triangle distribution are computed by the implementation with epsrel=1e-2, epsabs=inf (one Gauss-'
-    'Kronrod pass): compared with the closed form at relative tolerance 1e-2, maximal deviation recorded in evidence',
+    'Kronrod pass): compared with the closed form at tolerance 1e-2 * m0 * max(|x1|,|x2|) (the scale of the integrand; an interval '
+    'straddling 0 has a first moment near 0 by cancellation), maximal deviation recorded in evidence; normal distribution: finite '
+    'intervals compared with the closed form mu*m0 - sigma*(phi(z2)-phi(z1)) evaluated by the harness (math.erfc/exp) at 1e-6 * m0 * max|x|',
     'sum-to-one with boundary points is checked against cdf(b)-cdf(a) (equal to 1 when [a,b] covers the support)',
     'uniform distribution, boundary=False: the weights are the inner unweighted trapezoidal weights RENORMALISED to sum 1 '
     '(not divided by b-a); boundary=True: divided by b-a',
     'affine laws: tolerance 1e-9 * (|c| G + |e|) for E and 1e-9 * (|c| G + |e|)^2 * (1 + sum |w|) for Var, G = bound of |f|',
+    'grid histories: the weights of a dimension are compared with a fresh one-dimensional grid object of the same distribution (1e-13 relative: '
+    'same floating point operations), the tensor weights with the float products of the 1D weights (1e-14 relative) and with the model '
+    '(1D tolerances propagated through the product; grids of up to 300 points)',
+    'combined rule: combined weights of a run vs coefficient * tensor product of static compute_weights on fresh distribution objects (1e-12); '
+    'model integral / expectation / variance from the implementation\'s nodes, weights and model values at 2^-40 * sum |w||v| (2^-38 for Var)',
+    'excluded axis values (the unchanged code raises): Laplace distribution (chaospy: TypeError unexpected keyword scale), Triangle with mode at '
+    'the upper end (chaospy cdf(b) = 0 -> calculated negative weight), Triangle mode given as int (assert invalid midpoint), duplicate or '
+    'unsorted grid points (assert), modified basis with boundary points (assert in GlobalTrapezoidalGrid.compute_weights), n = 2 without boundary '
+    'points (assert boundary or num_points > 3), scale_weights=True (needs a basis grid), calculate_expectation on the combined integral while the '
+    'expectation-variance function is set (assert on the output length), |a| >= 128 for the +-1e-14 fallback (not representable)',
 ]
 
 T40 = F(1, 2 ** 40)
@@ -56,12 +68,17 @@ def gen_distribution(rng):
         return ('Uniform',), a, b
     if r < 0.6:
         a, b = rng.choice([(0.0, 1.0), (-1.0, 3.0), (2.0, 2.5), (0.0, 2.0)])
-        c = a + (b - a) * rng.choice([0.25, 0.5, 0.75, 0.125, 0.3, 0.9])
+        c = a + (b - a) * rng.choice([0.25, 0.5, 0.75, 0.125, 0.3, 0.9, 0.0])     # 0.0: mode at the lower end (c = b: chaospy's cdf(b) = 0, excluded)
         return ('Triangle', c), a, b
     mu, sigma = rng.choice([(0.2, 1.0), (0.0, 2.0), (-3.0, 0.5), (10.0, 0.25), (0.0, 1.0)])
-    if rng.random() < 0.7:
+    r = rng.random()
+    if r < 0.6:
         return ('Normal', mu, sigma), -math.inf, math.inf
     k = rng.choice([2.0, 4.0, 8.0])       # finite support: the weights then sum to cdf(b)-cdf(a) with boundary points
+    if r < 0.7:
+        return ('Normal', mu, sigma), mu - k * sigma, math.inf
+    if r < 0.8:
+        return ('Normal', mu, sigma), -math.inf, mu + k * sigma
     return ('Normal', mu, sigma), mu - k * sigma, mu + k * sigma
 
 
@@ -72,8 +89,25 @@ def gen_weight_case(rng):
     r = rng.random()
     n = rng.choice([1, 2, 3, 3, 4, 5, 6]) if r < 0.3 else (rng.randrange(7, 25) if r < 0.8 else rng.randrange(25, 61))
     style = rng.choice(['uniform', 'left', 'right', 'ends', 'random'])
+    if r >= 0.97:                         # beyond typical block sizes / thresholds (64, 200, 256, 1024)
+        n = rng.choice([65, 130, 201, 257, 515, 1025])
+        style = rng.choice(['uniform', 'random'])
     picks = [rng.random() for _ in range(max(0, n - 2))]
-    return dict(kind='weights', distr=list(distr), a=a, b=b, boundary=boundary, mb=mb, n=n, style=style, picks=picks)
+    xm = []
+    if rng.random() < 0.5:
+        # intervals on which ppf cannot deliver an inner point: the fallbacks of get_middle_weighted (far tails: cdf differences
+        # underflow; outside the support). |a|, |b| stay below 64 so that a + 1e-14 is representable.
+        if distr[0] == 'Normal':
+            mu, sg = distr[1], distr[2]
+            sg_ = min(sg, 0.5)
+            xm = rng.sample([[-math.inf, mu - 40 * sg], [mu + 40 * sg_, math.inf], [mu + 40 * sg_, mu + 41 * sg_], [mu - 50 * sg_, mu - 45 * sg_],
+                             [-math.inf, math.inf], [mu - sg, math.inf], [-math.inf, mu + 0.5 * sg], [mu + 9 * sg_, math.inf]], 3)
+        else:
+            L = b - a
+            xm = rng.sample([[a - 2 * L, a - L], [b + L, b + 2 * L], [a - L, a], [b, b + L], [a - L, b + L], [a, b], [a - L, a + 0.25 * L]], 3)
+    # ctor: how the grid object is constructed (keyword arguments / positional / defaults where they equal the request)
+    return dict(kind='weights', extra_mids=xm, distr=list(distr), a=a, b=b, boundary=boundary, mb=mb, n=n, style=style, picks=picks,
+                ctor=rng.choice(['kw', 'kw', 'pos', 'default']))
 
 
 def gen_peaked_case(rng):
@@ -104,9 +138,34 @@ def gen_peaked_case(rng):
                 e=rng.choice([0.0, 1.0, -2.0, 7.0, 0.25]), model=model, pos=pos, width=width, const=0.0, maxev=maxev, lmax=lmax)
 
 
+def gen_shared_domain_case(rng):
+    """d = 2..3, differently distributed dimensions on ONE domain, symmetric families first: their refinement trees produce equal 1D
+    point lists ([a, (a+b)/2, b], [-inf, mu, inf], and deeper for equal distributions) in differently distributed dimensions."""
+    dim = rng.choice([2, 2, 3])
+    if rng.random() < 0.7:
+        lo, hi = rng.choice(FIN_DOMAINS)
+        mid = 0.5 * (lo + hi)
+        fams = [['Uniform'], ['Triangle', mid], ['Triangle', mid], ['Triangle', lo + 0.25 * (hi - lo)], ['Triangle', lo]]
+        boundary = rng.random() < 0.6
+    else:
+        lo, hi = -math.inf, math.inf
+        mu = rng.choice([0.0, 0.2])
+        fams = [['Normal', mu, 1.0], ['Normal', mu, 2.0], ['Normal', mu, 0.5]]
+        boundary = False
+    distrs = [list(rng.choice(fams)) for _ in range(dim)]
+    if all(x == distrs[0] for x in distrs):
+        distrs[-1] = list(next(f for f in fams if f != distrs[0]))
+    return dict(kind='moments', distrs=distrs, a=[lo] * dim, b=[hi] * dim, boundary=boundary, c=rng.choice([2.0, -3.0, 0.5, -1.0, 0.0]),
+                e=rng.choice([0.0, 1.0, -2.0, 7.0]), model=rng.choice(['smooth', 'jump', 'const', 'smooth']), const=rng.choice([1.75, -2.0]),
+                maxev=rng.choice([15, 30, 50]) if dim == 2 else rng.choice([15, 30]), lmax=2, stages=rng.choice([0, 0, 1]), outputs=rng.choice([2, 2, 3]))
+
+
 def gen_moment_case(rng):
-    if rng.random() < 0.5:
-        return gen_peaked_case(rng)
+    r = rng.random()
+    if r < 0.4:
+        return dict(gen_peaked_case(rng), stages=rng.choice([0, 0, 0, 1]))
+    if r < 0.65:
+        return gen_shared_domain_case(rng)
     dim = rng.choice([1, 2, 2, 2])
     distrs, a, b = [], [], []
     for _ in range(dim):
@@ -114,10 +173,10 @@ def gen_moment_case(rng):
         distrs.append(list(d)); a.append(lo); b.append(hi)
     infinite = any(math.isinf(x) for x in a + b)
     boundary = (not infinite) and rng.random() < 0.4
-    c = rng.choice([2.0, -3.0, 0.5, 1.0, -1.0, 4.0])
-    e = rng.choice([0.0, 1.0, -2.0, 7.0, 0.25])
+    c = rng.choice([2.0, -3.0, 0.5, 1.0, -1.0, 4.0, 0.0, 1024.0])
+    e = rng.choice([0.0, 1.0, -2.0, 7.0, 0.25, -4096.0])
     return dict(kind='moments', distrs=distrs, a=a, b=b, boundary=boundary, c=c, e=e, model=rng.choice(['smooth', 'jump', 'const']),
-                const=rng.choice([1.75, -2.0, 0.0]), maxev=rng.choice([20, 40, 70]), lmax=rng.choice([2, 2, 3]))
+                const=rng.choice([1.75, -2.0, 0.0]), maxev=rng.choice([20, 40, 70]), lmax=rng.choice([2, 2, 3]), stages=rng.choice([0, 0, 1]), outputs=rng.choice([2, 2, 3]))
 
 
 # ----------------------------------------------------------------------------------------------- implementation workers
@@ -137,6 +196,86 @@ def _f(x):
     return float(np.asarray(x).reshape(-1)[0])
 
 
+def make_grid(a, b, op, boundary, mb, ctor='kw'):
+    from sparseSpACE.Grid import GlobalTrapezoidalGridWeighted
+    if ctor == 'pos':
+        return GlobalTrapezoidalGridWeighted(a, b, op, boundary, mb)
+    if ctor == 'default':
+        kw = {}
+        if boundary is not True:
+            kw['boundary'] = boundary
+        if mb is not False:
+            kw['modified_basis'] = mb
+        return GlobalTrapezoidalGridWeighted(a, b, op, **kw)
+    return GlobalTrapezoidalGridWeighted(a, b, op, boundary=boundary, modified_basis=mb)
+
+
+def normal_reference_moments(distr, pts):
+    """Closed form of the interval moments of Normal(mu, sigma) on the FINITE intervals (math.erfc / exp only; independent of the
+    implementation's distribution objects and their caches). Infinite intervals: None (their first moment does not enter the weights)."""
+    mu, sg = float(distr[1]), float(distr[2])
+
+    def Phi(z):
+        return 0.5 * math.erfc(-z / math.sqrt(2.0))
+
+    def phi(z):
+        return math.exp(-0.5 * z * z) / math.sqrt(2.0 * math.pi)
+    out = []
+    for x1, x2 in zip(pts, pts[1:]):
+        if math.isinf(x1) or math.isinf(x2):
+            z1 = -math.inf if math.isinf(x1) else (x1 - mu) / sg
+            z2 = math.inf if math.isinf(x2) else (x2 - mu) / sg
+            out.append((sx.rat((1.0 if z2 == math.inf else Phi(z2)) - (0.0 if z1 == -math.inf else Phi(z1))), None))
+            continue
+        z1, z2 = (x1 - mu) / sg, (x2 - mu) / sg
+        r0 = Phi(z2) - Phi(z1) if z1 < 0 else 0.5 * (math.erfc(z1 / math.sqrt(2.0)) - math.erfc(z2 / math.sqrt(2.0)))
+        out.append((sx.rat(r0), sx.rat(mu * r0 - sg * (phi(z2) - phi(z1)))))
+    return out
+
+
+def build_tree(g, dobj, d, a, b, n, style, picks, mids, cap=10 ** 9):
+    """Refinement tree with n points on [a, b] built with the grid's own (probability-halving) midpoint g.get_mid_point(., ., d);
+    every midpoint evaluation is recorded in `mids` together with the cdf values of the distribution object `dobj`."""
+    if n == 1:
+        return [0.5 * (a + b) if not (math.isinf(a) or math.isinf(b)) else 0.0], [0]
+    iv = [(a, b, 0, 0, 0)]
+    for r in picks[:max(0, n - 2)]:
+        # depth cap: below ~2^-20 of the support the interval moments (cdf differences) lose their digits - a limit of
+        # double precision, not of the rule
+        cand = [j for j in range(len(iv)) if iv[j][4] < MAXDEPTH]
+        if not cand:
+            break
+        if style == 'left':
+            i = cand[0] if r < 0.85 else cand[int(r * len(cand)) % len(cand)]
+        elif style == 'right':
+            i = cand[-1] if r < 0.85 else cand[int(r * len(cand)) % len(cand)]
+        elif style == 'ends':
+            i = cand[0] if r < 0.45 else (cand[-1] if r < 0.9 else cand[int(r * len(cand)) % len(cand)])
+        elif style == 'uniform':
+            i = min(cand, key=lambda j: (iv[j][4], j))          # breadth first: the regular tree
+        else:
+            i = cand[int(r * len(cand)) % len(cand)]
+        s, e, l0, l1, dp = iv[i]
+        mid = g.get_mid_point(s, e, d)
+        if cap <= 0 and s < mid < e:
+            nl = max(l0, l1) + 1
+            iv[i:i + 1] = [(s, mid, l0, nl, dp + 1), (mid, e, nl, l1, dp + 1)]
+            continue
+        cap -= 1
+        ca, cb = _f(dobj.cdf(s)), _f(dobj.cdf(e))
+        mid0 = dobj.ppf(0.5 * (ca + cb))
+        rec = dict(a=ext(s), b=ext(e), cdf_a=sx.rat(ca), cdf_b=sx.rat(cb), mid0=ext(float(mid0)) if not math.isnan(float(mid0)) else None,
+                   mid=ext(float(mid)) if not math.isnan(float(mid)) else None,
+                   cdf_mid=sx.rat(_f(dobj.cdf(mid))) if not math.isnan(float(mid)) else None,
+                   is_float=isinstance(mid, float), d=d)
+        mids.append(rec)
+        if not (s < mid < e):
+            break                                   # the refinement object would assert here
+        nl = max(l0, l1) + 1
+        iv[i:i + 1] = [(s, mid, l0, nl, dp + 1), (mid, e, nl, l1, dp + 1)]
+    return [iv[0][0]] + [x[1] for x in iv], [iv[0][2]] + [x[3] for x in iv]
+
+
 def impl_weights(case):
     import numpy as np
     import warnings
@@ -149,43 +288,13 @@ def impl_weights(case):
     out = dict(mids=[])
     try:
         op = UncertaintyQuantification(FunctionLinear([1.0]), [distr], [a], [b])
-        g = GlobalTrapezoidalGridWeighted([a], [b], op, boundary=case['boundary'], modified_basis=case['mb'])
+        g = make_grid([a], [b], op, case['boundary'], case['mb'], case.get('ctor', 'kw'))
         d = op.get_distributions()[0]
         # refinement tree built with the grid's own (probability-halving) midpoint
-        if case['n'] == 1:
-            pts, lev = [0.5 * (a + b) if not (math.isinf(a) or math.isinf(b)) else 0.0], [0]
-        else:
-            iv = [(a, b, 0, 0, 0)]
-            for r in case['picks']:
-                st = case['style']
-                # depth cap: below ~2^-20 of the support the interval moments (cdf differences) lose their digits - a limit of
-                # double precision, not of the rule
-                cand = [j for j in range(len(iv)) if iv[j][4] < MAXDEPTH]
-                if not cand:
-                    break
-                if st == 'left':
-                    i = cand[0] if r < 0.85 else cand[int(r * len(cand)) % len(cand)]
-                elif st == 'right':
-                    i = cand[-1] if r < 0.85 else cand[int(r * len(cand)) % len(cand)]
-                elif st == 'ends':
-                    i = cand[0] if r < 0.45 else (cand[-1] if r < 0.9 else cand[int(r * len(cand)) % len(cand)])
-                else:
-                    i = cand[int(r * len(cand)) % len(cand)]
-                s, e, l0, l1, dp = iv[i]
-                mid = g.get_mid_point(s, e, 0)
-                ca, cb = _f(d.cdf(s)), _f(d.cdf(e))
-                mid0 = d.ppf(0.5 * (ca + cb))
-                rec = dict(a=ext(s), b=ext(e), cdf_a=sx.rat(ca), cdf_b=sx.rat(cb), mid0=ext(float(mid0)) if not math.isnan(float(mid0)) else None,
-                           mid=ext(float(mid)) if not math.isnan(float(mid)) else None,
-                           cdf_mid=sx.rat(_f(d.cdf(mid))) if not math.isnan(float(mid)) else None,
-                           is_float=isinstance(mid, float))
-                out['mids'].append(rec)
-                if not (s < mid < e):
-                    break                                   # the refinement object would assert here
-                nl = max(l0, l1) + 1
-                iv[i:i + 1] = [(s, mid, l0, nl, dp + 1), (mid, e, nl, l1, dp + 1)]
-            pts = [iv[0][0]] + [x[1] for x in iv]
-            lev = [iv[0][2]] + [x[3] for x in iv]
+        pts, lev = build_tree(g, d, 0, a, b, case['n'], case['style'], case['picks'], out['mids'])
+        for s_, e_ in case.get('extra_mids', ()):
+            build_tree(g, d, 0, float(s_), float(e_), 3, 'random', [0.0], out['mids'])
+            out['mids'][-1]['extra'] = 1
         out['pts'] = [ext(float(x)) for x in pts]
         out['levels'] = lev
         out['cdf_ab'] = (sx.rat(_f(d.cdf(a))), sx.rat(_f(d.cdf(b))))
@@ -213,6 +322,8 @@ def impl_weights(case):
             out['trap'] = [sx.rat(float(x)) for x in GlobalTrapezoidalGrid.compute_weights(list(pts), a, b, case['mb'])]
         except Exception as e_:
             out['trap'] = None
+    if distr[0] == 'Normal':
+        out['normal_ref'] = normal_reference_moments(distr, [float(x) for x in pts])
     return out
 
 
@@ -240,10 +351,10 @@ def impl_moments(case):
                 gv = math.sin(x[0]) + (0.5 * math.cos(2.0 * x[-1]) if dim > 1 else 0.25)
             else:
                 gv = math.sin(x[0]) + (1.0 if x[-1] > 0.3 else 0.0)
-            return [gv, c * gv + e]
+            return [gv, c * gv + e] + ([const] if case.get('outputs', 2) == 3 else [])
 
         def output_length(self):
-            return 2
+            return case.get('outputs', 2)
     a = np.array(case['a']); b = np.array(case['b'])
     try:
         op = UncertaintyQuantification(Model(), [tuple(d) for d in case['distrs']], a, b)
@@ -258,37 +369,95 @@ def impl_moments(case):
         allv = [float(x) for x in list(E) + list(V) + list(op.get_result()) + [sum(W)]]
         if any(math.isnan(x) or math.isinf(x) for x in allv):
             return ('nan', dict(E=[float(x) for x in E], V=[float(x) for x in V], wsum=float(sum(W)), npoints=len(W)))
-        return ('ok', dict(integral=[sx.rat(float(x)) for x in op.get_result()], E=[sx.rat(float(x)) for x in E],
-                           V=[sx.rat(float(x)) for x in V], wsum=sx.rat(float(sum(W))), wabs=sx.rat(float(sum(abs(w) for w in W))),
-                           npoints=len(W)))
+        res = dict(integral=[sx.rat(float(x)) for x in op.get_result()], E=[sx.rat(float(x)) for x in E],
+                   V=[sx.rat(float(x)) for x in V], wsum=sx.rat(float(sum(W))), wabs=sx.rat(float(sum(abs(w) for w in W))),
+                   npoints=len(W))
+        # ---- the same quantities through the other public paths, on the same object (history)
+        try:
+            E2, V2 = op.calculate_expectation_and_variance(ci)                                   # repeated call
+            res['again'] = ([sx.rat(float(x)) for x in E2], [sx.rat(float(x)) for x in V2])
+            En, Vn = op.calculate_expectation_and_variance(ci, use_combiinstance_solution=False)   # from nodes, weights, model evaluations
+            res['nodes'] = ([sx.rat(float(x)) for x in En], [sx.rat(float(x)) for x in Vn])
+            res['expectation'] = [sx.rat(float(x)) for x in op.calculate_expectation(ci, use_combiinstance_solution=False)]
+        except Exception as e_:
+            res['paths_exc'] = _exc(e_)
+        if len(W) <= 2500:
+            mdl = op.f_model
+            res['W'] = [sx.rat(float(w)) for w in W]
+            res['F'] = [[sx.rat(float(v)) for v in mdl.eval(tuple(float(t) for t in pt))] for pt in P]
+            # ---- the component grids of the combination: 1D point lists, this dimension's moments, reference weights computed with
+            # FRESH one-dimensional distribution objects through the static compute_weights
+            fd = [UncertaintyQuantification(Model(), [tuple(case['distrs'][d])], a[d:d + 1], b[d:d + 1]).get_distributions()[0] for d in range(dim)]
+            dobjs = op.get_distributions()
+            comps = []
+            for cg in ci.scheme:
+                pts, lev, _ = ci.get_point_coord_for_each_dim(cg.levelvector)
+                cd = dict(coeff=int(cg.coefficient), levelvector=[int(x) for x in cg.levelvector], pts=[], moments=[], ref=[])
+                for d in range(dim):
+                    pl = [float(x) for x in pts[d]]
+                    cd['pts'].append([ext(x) for x in pl])
+                    cd['moments'].append([(sx.rat(_f(dobjs[d].get_zeroth_moment(pl[i], pl[i + 1]))), sx.rat(_f(dobjs[d].get_first_moment(pl[i], pl[i + 1]))))
+                                          for i in range(len(pl) - 1)])
+                    cd['ref'].append([sx.rat(float(x)) for x in GlobalTrapezoidalGridWeighted.compute_weights(pl, a[d], b[d], fd[d], case['boundary'], False)])
+                comps.append(cd)
+            res['comps'] = comps
+        if case.get('stages'):
+            # ---- history: continue the refinement on the same objects and evaluate again
+            try:
+                ci.continue_adaptive_refinement(tol=0, max_evaluations=case['maxev'] + 25)
+                E3, V3 = op.calculate_expectation_and_variance(ci)
+                P3, W3 = ci.get_points_and_weights()
+                res['stage2'] = dict(E=[sx.rat(float(x)) for x in E3], V=[sx.rat(float(x)) for x in V3], wsum=sx.rat(float(sum(W3))),
+                                     wabs=sx.rat(float(sum(abs(w) for w in W3))), npoints=len(W3), integral=[sx.rat(float(x)) for x in op.get_result()])
+            except Exception as e_:
+                res['stage2_exc'] = _exc(e_)
+        return ('ok', res)
     except Exception as e_:
         return _exc(e_)
 
 
 # ----------------------------------------------------------------------------------------------- part A
-def check_weights(chk, cases, impl, keys, samples):
+def check_weights(chk, cases, impl, keys, samples, origin=None, tag='weights'):
+    """cases / impl: one-dimensional weight requests and what the implementation returned for them. Part A passes its own cases; the
+    grid histories (part C) pass one pseudo case per (step, dimension) with origin(i) = the whole history up to that step."""
     mcases, midx = [], []
+    slim = (lambda c: {k: v for k, v in c.items() if k != '_i'}) if origin is None else (lambda c: origin(c['_i']))
+    for i, c in enumerate(cases):
+        c['_i'] = i
     for i, c in enumerate(cases):
         st, r = impl[i]
         fam = c['distr'][0]
-        chk.count('weights:%s boundary=%d modified=%d' % (fam, c['boundary'], c['mb']))
+        chk.count('%s:%s boundary=%d modified=%d' % (tag, fam, c['boundary'], c['mb']))
+        chk.count('%s:n=%s' % (tag, size_class(len(r['pts'])) if st == 'ok' and 'pts' in r else '?'))
+        if fam == 'Triangle':
+            chk.count('%s:triangle mode %s' % (tag, 'at lower end' if c['distr'][1] == c['a'] else ('centre' if 2 * c['distr'][1] == c['a'] + c['b'] else 'inner')))
+        if fam == 'Normal':
+            chk.count('%s:normal support %s' % (tag, 'R' if math.isinf(c['a']) and math.isinf(c['b']) else
+                                                ('half-infinite' if math.isinf(c['a']) or math.isinf(c['b']) else 'finite')))
+        if 'ctor' in c:
+            chk.count('%s:constructor arguments %s' % (tag, c['ctor']))
         sig0 = dict(family=fam, boundary=int(c['boundary']), mb=int(c['mb']), infinite=int(math.isinf(c['a']) or math.isinf(c['b'])))
         if st != 'ok' or 'setup' in r:
-            chk.violation('corr:C15/weights', 'worker-failed', dict(sig0, status=st), c, dict(impl=str(r)[:400]))
+            chk.violation('corr:C15/weights', 'worker-failed', dict(sig0, status=st), slim(c), dict(impl=str(r)[:400]))
             continue
         # --- weighted midpoints: model of get_middle_weighted + oracle (strictly inside, equal probability)
         for rec in r['mids']:
             chk.count('mid:evaluated')
+            if rec.get('extra'):
+                chk.count('mid:fallback query %s' % ('ppf delivers an inner point' if rec['mid0'] is not None and rec['mid0'] == rec['mid'] else
+                                                     ('0.5*(a+b)' if rec['a'][0] == 0 and rec['b'][0] == 0 else
+                                                      ('NaN' if rec['mid'] is None else 'finite end -+ 1e-14'))))
             if rec['mid0'] is not None:
                 mcases.append((4, [rec['a'], rec['b'], rec['mid0']])); midx.append((i, 'mid', rec))
             o = oracle_mid(rec)
             if o:
                 chk.violation('oracle:mid/' + o[0], 'mid-' + o[0], dict(family=fam, infinite=sig0['infinite']),
-                              dict(kind='mid', distr=c['distr'], a=ext_float(rec['a']), b=ext_float(rec['b'])), dict(text=o[1], record=str(rec)[:400]))
+                              dict(kind='mid', distr=c['distr'], a=ext_float(rec['a']), b=ext_float(rec['b'])) if origin is None else slim(c),
+                              dict(text=o[1], record=str(rec)[:400]))
         pts = r['pts']
         n = len(pts)
         if isinstance(r['moments'], tuple) and r['moments'] and r['moments'][0] == 'exc':
-            chk.violation('corr:C15/weights', 'moments-raise', sig0, c, dict(impl=str(r['moments'])))
+            chk.violation('corr:C15/weights', 'moments-raise', sig0, slim(c), dict(impl=str(r['moments'])))
             continue
         ivs = [[pts[j], pts[j + 1], r['moments'][j][0], r['moments'][j][1]] for j in range(n - 1)]
         fa = F(c['a']) if not math.isinf(c['a']) else F(0)
@@ -309,7 +478,7 @@ def check_weights(chk, cases, impl, keys, samples):
             if not ok:
                 c = cases[i]
                 chk.violation('corr:C15/mid', 'mid-differs', dict(family=c['distr'][0]),
-                              dict(kind='mid', distr=c['distr'], a=ext_float(rec['a']), b=ext_float(rec['b'])),
+                              dict(kind='mid', distr=c['distr'], a=ext_float(rec['a']), b=ext_float(rec['b'])) if origin is None else slim(c),
                               dict(impl=str(got), model=str(want), record=str(rec)[:300]), failing_input=False)
         else:
             by.setdefault(i, {})[what] = mr
@@ -353,11 +522,28 @@ def check_weights(chk, cases, impl, keys, samples):
                 if abs(m0 - e0) > F(1, 10 ** 12):
                     bad.append(('zeroth moment vs closed form', dict(interval=j, impl=float(m0), exact=float(e0))))
                     break
-                dev = abs(m1 - e1) / abs(e1) if e1 != 0 else abs(m1 - e1)
+                # scale of the integrand x*pdf(x) on the interval: m0 * max|x| (an interval that straddles 0 has a first moment
+                # near 0 by cancellation; the one-pass Gauss-Kronrod error of the implementation does not shrink with it)
+                sc = abs(e0) * max(abs(qq(pts[j][1])), abs(qq(pts[j + 1][1])))
+                dev = abs(m1 - e1) / sc if sc != 0 else abs(m1 - e1)
                 maxdev[fam] = max(maxdev.get(fam, 0.0), float(dev))
-                if abs(m1 - e1) > F(1, 100) * abs(e1) + F(1, 10 ** 12):
+                if abs(m1 - e1) > F(1, 100) * sc + F(1, 10 ** 12):
                     bad.append(('first moment vs closed form', dict(interval=j, impl=float(m1), exact=float(e1))))
                     break
+        if fam == 'Normal' and r.get('normal_ref'):
+            # the implementation's moments against the closed form of the normal distribution (finite intervals; harness arithmetic)
+            sg = F(c['distr'][2])
+            for j, ((m0, m1), (e0, e1)) in enumerate(zip(r['moments'], r['normal_ref'])):
+                if abs(m0 - e0) > F(1, 10 ** 12):
+                    bad.append(('zeroth moment vs closed form', dict(interval=j, impl=float(m0), exact=float(e0))))
+                    break
+                if e1 is not None:
+                    sc = max(abs(qq(pts[j][1])), abs(qq(pts[j + 1][1])), sg)
+                    dev = abs(m1 - e1) / (abs(m0) * sc) if m0 != 0 else F(0)
+                    maxdev['Normal (finite intervals, relative to m0*max|x|)'] = max(maxdev.get('Normal (finite intervals, relative to m0*max|x|)', 0.0), float(dev))
+                    if abs(m1 - e1) > F(1, 10 ** 6) * abs(m0) * sc + F(1, 10 ** 13):
+                        bad.append(('first moment vs closed form', dict(interval=j, impl=float(m1), exact=float(e1))))
+                        break
         orc = oracle_weights(c, r)
         if orc:
             ca_, cb_ = r['cdf_ab']
@@ -378,8 +564,8 @@ def check_weights(chk, cases, impl, keys, samples):
                                 impl_weights=[float(x) for x in r['weights'][1]]))
 
 
-def slim(c):
-    return c
+def size_class(n):
+    return str(n) if n <= 4 else ('5-24' if n < 25 else ('25-64' if n <= 64 else ('65-256' if n <= 256 else '>256')))
 
 
 def ext_close(want, got):
@@ -444,6 +630,15 @@ def oracle_weights(c, r):
     inner = pts if c['boundary'] else pts[1:-1]
     if len(w) != len(inner) or r['weights'][2] != inner:
         return ('alignment', '%d weights for %d points' % (len(w), len(inner)))
+    if r.get('fresh') is not None:
+        # the weights of a dimension depend on that dimension's distribution, points and the boundary flag only: a fresh one-dimensional
+        # grid object of the same distribution must produce the same numbers (same floating point operations)
+        fr = r['fresh']
+        if fr[0] == 'ok' and (len(fr[1]) != len(w) or any(abs(x - y) > F(1, 10 ** 13) * (1 + abs(y)) for x, y in zip(w, fr[1]))):
+            j = next((j for j, (x, y) in enumerate(zip(w, fr[1])) if abs(x - y) > F(1, 10 ** 13) * (1 + abs(y))), None)
+            return ('dimension', 'weights of dimension %s in the history differ from those of a fresh one-dimensional grid of the same distribution on '
+                    'the same points (index %s: %s vs %s)' % (r.get('dim'), j, float(w[j]) if j is not None else len(w),
+                                                              float(fr[1][j]) if j is not None else len(fr[1])))
     if not c['mb'] and any(x < 0 for x in w):
         return ('nonneg', 'negative weight %.3g' % float(min(w)))
     s = sum(w)
@@ -486,6 +681,350 @@ def hypothesis_check(r, n):
     if n > 1 and abs(tot - (cb - ca)) > F(1, 10 ** 12):
         return 'sum-m0'
     return None
+
+
+# ----------------------------------------------------------------------------------------------- part C: histories on grid objects
+FIN_DOMAINS = [(0.0, 1.0), (-1.0, 3.0), (2.0, 2.5), (-3.0, 6.0)]
+NORMALS = [(0.2, 1.0), (0.0, 2.0), (-3.0, 0.5), (0.0, 1.0), (0.5, 2.0)]
+
+
+def gen_family_on(rng, a, b):
+    if math.isinf(a) or math.isinf(b):
+        return ['Normal'] + list(rng.choice(NORMALS))
+    r = rng.random()
+    if r < 0.35:
+        return ['Uniform']
+    if r < 0.8:
+        return ['Triangle', a + (b - a) * rng.choice([0.5, 0.5, 0.25, 0.75, 0.3, 0.0, 0.125, 0.9])]
+    return ['Normal', a + (b - a) * rng.choice([0.5, 0.25, 1.0]), (b - a) * rng.choice([0.25, 0.5, 2.0])]      # not truncated by the code
+
+
+def gen_recipe(rng, finite, small):
+    r = rng.random()
+    if finite and r < 0.3:
+        return ['dyadic', rng.choice([1, 2, 2, 3, 3, 4] if small else [1, 2, 3, 4, 5, 6])]
+    n = rng.choice([3, 4, 5, 6, 7, 9]) if small or rng.random() < 0.6 else rng.randrange(10, 41)
+    return ['own', rng.choice(['uniform', 'uniform', 'left', 'right', 'ends', 'random']), n, [round(rng.random(), 6) for _ in range(n - 2)]]
+
+
+def gen_grid_case(rng):
+    """A short history on one UncertaintyQuantification operation and one or two GlobalTrapezoidalGridWeighted objects built from it:
+    2-4 set_grid requests; dimensions with different distributions on one domain receive the same 1D point list (copied from another
+    dimension of the same request or from an earlier request), requests are repeated, the second grid object (other boundary flag) shares
+    the distribution objects and their moment caches."""
+    dim = rng.choice([1, 2, 2, 2, 3, 3])
+    if rng.random() < 0.75:
+        dom = (-math.inf, math.inf) if rng.random() < 0.3 else rng.choice(FIN_DOMAINS)
+        doms = [dom] * dim
+    else:
+        doms = [((-math.inf, math.inf) if rng.random() < 0.3 else rng.choice(FIN_DOMAINS)) for _ in range(dim)]
+    distrs = []
+    for d in range(dim):
+        same = [e for e in range(d) if doms[e] == doms[d]]
+        if same and rng.random() < 0.25:
+            distrs.append(list(distrs[rng.choice(same)]))              # equal description and domain: ONE shared distribution object
+        else:
+            distrs.append(gen_family_on(rng, *doms[d]))
+    all_uniform = all(x[0] == 'Uniform' for x in distrs)
+    form = 'tuples'
+    if all_uniform and rng.random() < 0.5:
+        form = 'string'                                                # distributions='Uniform' for every dimension
+    elif any(len(x) == 1 for x in distrs) and rng.random() < 0.4:
+        form = 'mixed'                                                 # parameterless entries as bare strings
+    grids = []
+    for _ in range(rng.choice([1, 1, 2])):
+        bd = rng.random() < 0.5
+        grids.append(dict(boundary=bd, mb=bool(all_uniform and not bd and rng.random() < 0.4), ctor=rng.choice(['kw', 'pos', 'default'])))
+    finite = [not (math.isinf(lo) or math.isinf(hi)) for lo, hi in doms]
+    steps = []
+    for k in range(rng.choice([2, 3, 3, 4])):
+        if steps and rng.random() < 0.15:
+            steps.append(dict(g=rng.randrange(len(grids)), dims=[['prev', rng.randrange(len(steps)), d] for d in range(dim)]))   # repeated request
+            continue
+        small = dim == 3
+        recs = []
+        for d in range(dim):
+            same = [e for e in range(d) if doms[e] == doms[d]]
+            r = rng.random()
+            if same and r < 0.5:
+                recs.append(['copy', rng.choice(same)])
+            elif steps and r < 0.7:
+                e = rng.choice([e for e in range(dim) if doms[e] == doms[d]])
+                recs.append(['prev', rng.randrange(len(steps)), e])
+            elif steps and r < 0.85:
+                # another tree with as many points as an earlier request had in this dimension
+                sizes = [x['dims'][d][2] if x['dims'][d][0] == 'own' else 2 ** x['dims'][d][1] + 1 for x in steps if x['dims'][d][0] in ('own', 'dyadic')]
+                n = rng.choice(sizes) if sizes else 5
+                recs.append(['own', rng.choice(['left', 'right', 'ends', 'random']), n, [round(rng.random(), 6) for _ in range(n - 2)]])
+            else:
+                recs.append(gen_recipe(rng, finite[d], small))
+        steps.append(dict(g=rng.randrange(len(grids)), dims=recs))
+    return dict(kind='grid', distrs=distrs, a=[lo for lo, _ in doms], b=[hi for _, hi in doms], form=form, grids=grids, steps=steps)
+
+
+def _level_dyadic(i, k):
+    if i == 0 or i == 2 ** k:
+        return 0
+    lv = k
+    while i % 2 == 0:
+        i //= 2
+        lv -= 1
+    return lv
+
+
+def impl_grid(case):
+    import numpy as np
+    import warnings
+    warnings.filterwarnings('ignore')
+    from sparseSpACE.Grid import GlobalTrapezoidalGridWeighted, GlobalTrapezoidalGrid
+    from sparseSpACE.GridOperation import UncertaintyQuantification
+    from sparseSpACE.Function import FunctionLinear
+    dim = len(case['a'])
+    a = np.array(case['a'], dtype=float); b = np.array(case['b'], dtype=float)
+    tup = [tuple(x) for x in case['distrs']]
+    if case.get('form') == 'string':
+        darg = tup[0][0]
+    elif case.get('form') == 'mixed':
+        darg = [t[0] if len(t) == 1 else t for t in tup]
+    else:
+        darg = list(tup)
+    out = dict(steps=[])
+    try:
+        op = UncertaintyQuantification(FunctionLinear([1.0] * dim), darg, a, b)
+        grids = [make_grid(a, b, op, g['boundary'], g['mb'], g.get('ctor', 'kw')) for g in case['grids']]
+        dobjs = op.get_distributions()
+        out['shared_objects'] = [[int(dobjs[i] is dobjs[j]) for j in range(dim)] for i in range(dim)]
+        # fresh, independent one-dimensional references (their own operation, distribution object and caches)
+        fops = [UncertaintyQuantification(FunctionLinear([1.0]), [tup[d]], a[d:d + 1], b[d:d + 1]) for d in range(dim)]
+    except Exception as e_:
+        out['setup'] = _exc(e_)
+        return out
+    resolved = []
+    for k, st in enumerate(case['steps']):
+        g = grids[st['g']]
+        bd, mb = case['grids'][st['g']]['boundary'], case['grids'][st['g']]['mb']
+        rec = dict(g=st['g'], dims=[], mids=[])
+        pts, levs = [], []
+        try:
+            for d, rp in enumerate(st['dims']):
+                if rp[0] == 'own':
+                    p, l = build_tree(g, dobjs[d], d, float(a[d]), float(b[d]), rp[2], rp[1], rp[3], rec['mids'], cap=4)
+                elif rp[0] == 'dyadic':
+                    kk = rp[1]
+                    p = [float(a[d] + (b[d] - a[d]) * i / 2 ** kk) for i in range(2 ** kk + 1)]
+                    l = [_level_dyadic(i, kk) for i in range(2 ** kk + 1)]
+                elif rp[0] == 'copy':
+                    p, l = list(pts[rp[1]]), list(levs[rp[1]])
+                elif rp[0] == 'prev':
+                    p, l = list(resolved[rp[1]][0][rp[2]]), list(resolved[rp[1]][1][rp[2]])
+                else:                                           # ['list', points, levels]
+                    p, l = [float(x) for x in rp[1]], list(rp[2])
+                pts.append(p); levs.append(l)
+            # one midpoint query per dimension on an interval of ANOTHER dimension's point list where the domains agree (a cache of
+            # midpoints keyed by the interval alone would answer with the other distribution's midpoint)
+            for d in range(dim):
+                for e in range(dim):
+                    if e != d and (a[e], b[e]) == (a[d], b[d]) and len(pts[e]) >= 2 and len(rec['mids']) < 12:
+                        j = (k + d) % (len(pts[e]) - 1)
+                        build_tree(g, dobjs[d], d, pts[e][j], pts[e][j + 1], 3, 'random', [0.0], rec['mids'])
+        except Exception as e_:
+            rec['resolve'] = _exc(e_)
+            out['steps'].append(rec)
+            break
+        resolved.append((pts, levs))
+        rec['pts'] = [[ext(float(x)) for x in p] for p in pts]
+        rec['levels'] = levs
+        try:
+            g.set_grid([list(p) for p in pts], [list(l) for l in levs])
+            W = [('ok', [sx.rat(float(w)) for w in g.weights[d]], [ext(float(x)) for x in g.coordinate_array[d]]) for d in range(dim)]
+            rec['numPoints'] = [int(x) for x in g.numPoints]
+        except Exception as e_:
+            W = [_exc(e_)] * dim
+        for d in range(dim):
+            dd = dict(weights=W[d])
+            try:
+                w = GlobalTrapezoidalGridWeighted.compute_weights(list(pts[d]), a[d], b[d], dobjs[d], bd, mb)
+                dd['static'] = ('ok', [sx.rat(float(x)) for x in w])
+            except Exception as e_:
+                dd['static'] = _exc(e_)
+            try:
+                dd['moments'] = [(sx.rat(_f(dobjs[d].get_zeroth_moment(pts[d][i], pts[d][i + 1]))),
+                                  sx.rat(_f(dobjs[d].get_first_moment(pts[d][i], pts[d][i + 1])))) for i in range(len(pts[d]) - 1)]
+            except Exception as e_:
+                dd['moments'] = _exc(e_)
+            dd['cdf_ab'] = (sx.rat(_f(dobjs[d].cdf(a[d]))), sx.rat(_f(dobjs[d].cdf(b[d]))))
+            try:
+                fg = GlobalTrapezoidalGridWeighted(a[d:d + 1], b[d:d + 1], fops[d], boundary=bd, modified_basis=mb)
+                fg.set_grid([list(pts[d])], [list(levs[d])])
+                dd['fresh'] = ('ok', [sx.rat(float(w)) for w in fg.weights[0]])
+            except Exception as e_:
+                dd['fresh'] = _exc(e_)
+            if tup[d][0] == 'Uniform':
+                try:
+                    dd['trap'] = [sx.rat(float(x)) for x in GlobalTrapezoidalGrid.compute_weights(list(pts[d]), a[d], b[d], mb)]
+                except Exception:
+                    dd['trap'] = None
+            if tup[d][0] == 'Normal':
+                dd['normal_ref'] = normal_reference_moments(tup[d], [float(x) for x in pts[d]])
+            rec['dims'].append(dd)
+        # the tensor product: get_weights / getWeight / getPoints
+        if W[0][0] == 'ok':
+            try:
+                npts = 1
+                for d in range(dim):
+                    npts *= len(W[d][1])
+                rec['npoints'] = npts
+                if npts <= 4000:
+                    tw = g.get_weights()
+                    rec['tensor'] = [sx.rat(float(x)) for x in tw]
+                    rec['n_getPoints'] = len(g.getPoints())
+                    if npts > 0:
+                        idx = [(7 * k + 3 * d + 1) % len(W[d][1]) for d in range(dim)]
+                        rec['getWeight'] = (idx, sx.rat(float(g.getWeight(idx))))
+            except Exception as e_:
+                rec['tensor_exc'] = _exc(e_)
+        out['steps'].append(rec)
+    return out
+
+
+def propagate_bounds(ws, tols):
+    """Bound of |prod_d (w_d + delta_d) - prod_d w_d| for |delta_d| <= tol_d, in the order of the tensor product (floats)."""
+    bound, absw = [0.0], [1.0]
+    for w, t in zip(ws, tols):
+        nb, na = [], []
+        for bx, ax in zip(bound, absw):
+            for wv, tv in zip(w, t):
+                nb.append(bx * (abs(wv) + tv) + ax * tv); na.append(ax * abs(wv))
+        bound, absw = nb, na
+    return bound
+
+
+def check_grids(chk, cases, impl, keys, samples):
+    pc, pi, org = [], [], []
+    tens = []
+    for i, c in enumerate(cases):
+        st, r = impl[i]
+        dim = len(c['a'])
+        same_dom = len(set(zip(c['a'], c['b']))) < dim
+        ndist = len(set(map(str, c['distrs'])))
+        chk.count('grid:d=%d %s' % (dim, 'one distribution' if ndist == 1 else ('different distributions on a shared domain' if same_dom else
+                                                                                  'different distributions, different domains')))
+        chk.count('grid:distributions given as %s' % c.get('form', 'tuples'))
+        chk.count('grid:%d grid object(s) on one operation' % len(c['grids']))
+        if st != 'ok' or 'setup' in r:
+            chk.violation('corr:C15/grid', 'worker-failed', dict(status=st, dim=dim), c, dict(impl=str(r)[:400]))
+            continue
+        if any(r['shared_objects'][x][y] for x in range(dim) for y in range(x + 1, dim)):
+            chk.count('grid:distribution object shared between dimensions')
+        for k, rec in enumerate(r['steps']):
+            hist = dict(c, steps=c['steps'][:k + 1])
+            if 'resolve' in rec:
+                chk.violation('oracle:mid/exception', 'mid-exception', dict(dim=dim), hist, dict(impl=str(rec['resolve'])[:300]))
+                break
+            g = c['grids'][rec['g']]
+            kinds = [x[0] for x in c['steps'][k]['dims']]
+            collide = sum(1 for x in range(dim) for y in range(x + 1, dim) if rec['pts'][x] == rec['pts'][y] and c['distrs'][x] != c['distrs'][y])
+            if collide:
+                chk.count('grid:request with one point list in two differently distributed dimensions')
+            if any(x == 'prev' for x in kinds):
+                chk.count('grid:request re-uses a point list of an earlier request')
+            if all(x[0] == 'prev' and x[1] == c['steps'][k]['dims'][0][1] and x[2] == d_ for d_, x in enumerate(c['steps'][k]['dims'])):
+                chk.count('grid:repeated request')
+            for d in range(dim):
+                dd = rec['dims'][d]
+                pcase = dict(kind='weights', distr=c['distrs'][d], a=c['a'][d], b=c['b'][d], boundary=g['boundary'], mb=g['mb'])
+                pr = dict(dd, pts=rec['pts'][d], levels=rec['levels'][d], mids=[m for m in rec['mids'] if m['d'] == d], dim=d)
+                pc.append(pcase); pi.append(('ok', pr)); org.append(dict(hist, focus=dict(step=k, dim=d)))
+            if 'tensor' in rec or 'tensor_exc' in rec:
+                tens.append((i, k, hist, rec, g))
+    check_weights(chk, pc, pi, keys, samples, origin=lambda j: org[j], tag='grid-dim')
+    # ---- tensor product: model sub 6 on the implementation's moments
+    mcases = []
+    for (i, k, hist, rec, g) in tens:
+        c = cases[i]
+        dims = []
+        for d in range(len(c['a'])):
+            dd = rec['dims'][d]
+            pts = rec['pts'][d]
+            mom = dd['moments']
+            if isinstance(mom, tuple) and mom and mom[0] == 'exc':
+                dims = None
+                break
+            fa = F(c['a'][d]) if not math.isinf(c['a'][d]) else F(0)
+            fb = F(c['b'][d]) if not math.isinf(c['b'][d]) else F(0)
+            dims.append([fa, fb, [[pts[j], pts[j + 1], mom[j][0], mom[j][1]] for j in range(len(pts) - 1)]])
+        # the exact tensor product costs the extracted model ~0.1 ms per rational product: grids of up to 300 points go to the model
+        mcases.append((6, [g['boundary'], g['mb'], dims if dims is not None and len(rec.get('tensor', ())) <= 300 else []]))
+    mres = run_model(15, mcases)
+    for (i, k, hist, rec, g), mr in zip(tens, mres):
+        c = cases[i]
+        dim = len(c['a'])
+        chk.traces += 1
+        sig = dict(dim=dim, boundary=int(g['boundary']))
+        if 'tensor_exc' in rec:
+            chk.violation('oracle:tensor/exception', 'tensor-exception', sig, hist, dict(impl=str(rec['tensor_exc'])))
+            continue
+        W1 = [rec['dims'][d]['weights'][1] for d in range(dim)]
+        tw = rec['tensor']
+        chk.count('grid:tensor weights %s points' % size_class(len(tw)))
+        # oracle: get_weights is the product rule of the 1D weights (itertools.product order), getWeight(index) the product of the entries
+        W1f = [[float(x) for x in w] for w in W1]
+        twf = [float(x) for x in tw]
+        ref = [1.0]
+        for w in W1f:
+            ref = [x * y for x in ref for y in w]                 # the same floating point products, last dimension fastest
+        orc = None
+        if len(twf) != len(ref) or rec.get('n_getPoints') != len(ref):
+            orc = ('tensor-length', '%d weights, %s points for a grid of %d points' % (len(twf), rec.get('n_getPoints'), len(ref)))
+        elif any(abs(x - y) > 1e-14 * abs(y) + 1e-300 for x, y in zip(twf, ref)):
+            j = next(j for j, (x, y) in enumerate(zip(twf, ref)) if abs(x - y) > 1e-14 * abs(y) + 1e-300)
+            orc = ('tensor-product', 'get_weights()[%d] = %.17g is not the product %.17g of the 1D weights' % (j, twf[j], ref[j]))
+        elif 'getWeight' in rec:
+            idx, gw = rec['getWeight']
+            want = 1.0
+            for d in range(dim):
+                want *= W1f[d][idx[d]]
+            if abs(float(gw) - want) > 1e-14 * abs(want):
+                orc = ('getWeight', 'getWeight(%s) = %.17g, product of the 1D weights %.17g' % (idx, float(gw), want))
+        if orc is None and ref:
+            prod = 1.0
+            for w in W1f:
+                prod *= math.fsum(w)
+            if abs(math.fsum(twf) - prod) > 1e-12 * (1 + abs(prod)):
+                orc = ('tensor-sum', 'tensor weights sum to %.15g, product of the 1D sums %.15g' % (math.fsum(twf), prod))
+            elif not g['mb'] and any(x < 0 for x in twf):
+                orc = ('tensor-nonneg', 'negative tensor weight %.3g' % min(twf))
+        if orc:
+            chk.violation('oracle:tensor/' + orc[0], 'tensor-' + orc[0], sig, hist, dict(property_predicate=orc[1]))
+            continue
+        # correspondence with the model (1D weights from the moments, strip, tensor product)
+        if len(twf) > 300:
+            chk.count('grid:tensor beyond 300 points (oracle only)')
+            continue
+        if mr == [0] or sx.is_err(mr):
+            if all(rec['dims'][d]['weights'][0] == 'ok' for d in range(dim)):
+                # already reported per dimension by check_weights when the model rejects a request the implementation accepts
+                chk.count('grid:tensor model rejects')
+            continue
+        mt = [float(sx.q(x)) for x in mr[2]]
+        mw = [[float(sx.q(x)) for x in l] for l in mr[1]]
+        # tolerance: the per-dimension bounds of the 1D weights propagated through the product
+        tol1 = []
+        for d in range(dim):
+            dd = rec['dims'][d]
+            pcase = dict(distr=c['distrs'][d], a=c['a'][d], b=c['b'][d], boundary=g['boundary'], mb=g['mb'])
+            tol1.append([float(t) for t in weight_tolerances(pcase, dict(dd, pts=rec['pts'][d]), len(rec['pts'][d]), not g['boundary'])])
+        bound = propagate_bounds(mw, tol1)
+        if len(mt) != len(twf) or any(abs(x - y) > t + 1e-13 * abs(y) for x, y, t in zip(twf, mt, bound)):
+            j = next((j for j, (x, y, t) in enumerate(zip(twf, mt, bound)) if abs(x - y) > t + 1e-13 * abs(y)), None)
+            chk.violation('corr:C15/tensor', 'tensor-differs', sig, hist,
+                          dict(index=j, impl=twf[j] if j is not None else len(twf), model=mt[j] if j is not None else len(mt),
+                               property_predicate='holds on this case'), failing_input=False)
+        if len(tw) >= 4:
+            keys.append(('g', str(c['distrs']), g['boundary'], g['mb'], str(rec['pts'])))
+        if len(samples) < 8 and dim >= 2 and 9 <= len(tw) <= 40 and not any(s_.get('kind') == 'grid' for s_ in samples):
+            samples.append(dict(kind='grid', distributions=c['distrs'], boundary=g['boundary'], points=[[ext_float(p) for p in l] for l in rec['pts']],
+                                impl_weights_1d=[[float(x) for x in w] for w in W1]))
 
 
 # ----------------------------------------------------------------------------------------------- part B
@@ -550,6 +1089,146 @@ def check_moments(chk, cases, impl, keys, samples):
                                 Var=[float(x) for x in r['V']], points=r['npoints']))
 
 
+def check_moment_paths(chk, cases, impl):
+    """Part B, second half: the combined rule itself. Model sub 8: integral of the expectation-variance function over the combined nodes /
+    weights, calculate_expectation_and_variance through the combined integral and through nodes / weights; model sub 7: the combined weights
+    rebuilt from the component grids' 1D point lists and this dimension's moments. Oracles: both public paths agree, repeated calls agree,
+    the combined weights are the tensor products of each dimension's OWN weighted trapezoidal weights (static compute_weights on fresh
+    distribution objects), continued refinement obeys the same laws."""
+    m8, m7, idx8, idx7 = [], [], [], []
+    for i, c in enumerate(cases):
+        st, r = impl[i]
+        if st != 'ok' or r[0] != 'ok':
+            continue
+        r = r[1]
+        sig0 = dict(boundary=int(c['boundary']), shared_distribution=shared_distribution(c),
+                    truncated_normal=int(any(d[0] == 'Normal' and not (math.isinf(lo) and math.isinf(hi)) for d, lo, hi in zip(c['distrs'], c['a'], c['b']))))
+        dim = len(c['a'])
+        chk.count('moments:model output length %d' % c.get('outputs', 2))
+        chk.count('moments:c=%s' % ('0' if c['c'] == 0 else ('negative' if c['c'] < 0 else ('large' if abs(c['c']) > 100 else 'positive'))))
+        same_dom = len(set(zip(c['a'], c['b']))) < dim and len(set(map(str, c['distrs']))) > 1
+        if same_dom:
+            chk.count('moments:different distributions on a shared domain')
+        if 'paths_exc' in r:
+            chk.violation('oracle:moments/paths-exception', 'moments-law', dict(sig0, clause='paths-exception'), c,
+                          dict(property_predicate='calculate_expectation_and_variance raises on a second call / on the nodes-and-weights path',
+                               exception=str(r['paths_exc'])))
+        else:
+            chk.count('moments:paths (repeated call, use_combiinstance_solution=False, calculate_expectation)')
+            scale = (abs(F(c['c'])) * 2 + abs(F(c['e'])) + 1)
+            tolE = F(1, 10 ** 10) * scale * (1 + r['wabs'])
+            tolV = F(1, 10 ** 10) * scale * scale * (1 + r['wabs'])
+            orc = None
+            if r['again'] != (r['E'], r['V']):
+                orc = ('repeated-call', 'a second calculate_expectation_and_variance on the same objects returns different numbers')
+            elif r['expectation'] != r['nodes'][0]:
+                orc = ('calculate-expectation', 'calculate_expectation(use_combiinstance_solution=False) differs from the expectation of the same path')
+            elif any(abs(x - y) > tolE for x, y in zip(r['nodes'][0], r['E'])) or len(r['nodes'][0]) != len(r['E']):
+                orc = ('paths-expectation', 'E from nodes/weights %s, from the combined integral %s' % ([float(x) for x in r['nodes'][0]], [float(x) for x in r['E']]))
+            elif any(abs(x - y) > tolV for x, y in zip(r['nodes'][1], r['V'])):
+                orc = ('paths-variance', 'Var from nodes/weights %s, from the combined integral %s' % ([float(x) for x in r['nodes'][1]], [float(x) for x in r['V']]))
+            elif any(v < 0 for v in r['nodes'][1]):
+                orc = ('variance-negative', 'negative variance %s on the nodes/weights path' % float(min(r['nodes'][1])))
+            if orc:
+                chk.violation('oracle:moments/' + orc[0], 'moments-law', dict(sig0, clause=orc[0]), c, dict(property_predicate=orc[1]))
+        if 'stage2_exc' in r:
+            chk.count('moments:continued run raised %s %s' % (r['stage2_exc'][1], r['stage2_exc'][2]))
+        elif 'stage2' in r:
+            chk.count('moments:continued refinement on the same objects')
+            o = oracle_moments(c, r['stage2'])
+            if o:
+                chk.violation('oracle:moments/' + o[0], 'moments-law', dict(sig0, clause=o[0], stage=2), c,
+                              dict(property_predicate=o[1] + ' (after continue_adaptive_refinement)'))
+        if 'W' not in r:
+            continue
+        m8.append((8, [c.get('outputs', 2), r['W'], r['F']])); idx8.append(i)
+        comps = []
+        for cd in r['comps']:
+            dims = []
+            for d in range(dim):
+                pts, mom = cd['pts'][d], cd['moments'][d]
+                fa = F(c['a'][d]) if not math.isinf(c['a'][d]) else F(0)
+                fb = F(c['b'][d]) if not math.isinf(c['b'][d]) else F(0)
+                dims.append([fa, fb, [[pts[j], pts[j + 1], mom[j][0], mom[j][1]] for j in range(len(pts) - 1)]])
+            comps.append([cd['coeff'], dims])
+        m7.append((7, [c['boundary'], comps])); idx7.append(i)
+    r8 = run_model(15, m8)
+    r7 = run_model(15, m7)
+    for i, mr in zip(idx8, r8):
+        c = cases[i]; r = impl[i][1][1]
+        chk.traces += 1
+        sig0 = dict(boundary=int(c['boundary']), shared_distribution=shared_distribution(c))
+        mint = [sx.q(x) for x in mr[0]]
+        mEc, mVc = [sx.q(x) for x in mr[1][0]], [sx.q(x) for x in mr[1][1]]
+        mEn, mVn = [sx.q(x) for x in mr[2][0]], [sx.q(x) for x in mr[2][1]]
+        K = c.get('outputs', 2)
+        mag = [sum(abs(w) * abs(v[j]) for w, v in zip(r['W'], r['F'])) for j in range(K)]
+        mag = mag + [sum(abs(w) * v[j] * v[j] for w, v in zip(r['W'], r['F'])) for j in range(K)]
+        bad = None
+        for j in range(2 * K):
+            if abs(mint[j] - r['integral'][j]) > F(1, 2 ** 40) * (mag[j] + F(1, 2 ** 40)):
+                bad = ('combined integral', dict(component=j, impl=float(r['integral'][j]), model=float(mint[j])))
+        if bad is None and 'nodes' in r:
+            for j in range(K):
+                if abs(mEn[j] - r['nodes'][0][j]) > F(1, 2 ** 40) * (mag[j] + F(1, 2 ** 40)):
+                    bad = ('expectation (nodes/weights path)', dict(component=j, impl=float(r['nodes'][0][j]), model=float(mEn[j])))
+                elif abs(mVn[j] - r['nodes'][1][j]) > F(1, 2 ** 38) * (mag[K + j] + mag[j] ** 2 + F(1, 2 ** 40)):
+                    bad = ('variance (nodes/weights path)', dict(component=j, impl=float(r['nodes'][1][j]), model=float(mVn[j])))
+        if bad is None and (mEc != mEn or mVc != mVn):
+            bad = ('model: the two paths differ in exact arithmetic', dict(combi=str((mEc, mVc))[:200], nodes=str((mEn, mVn))[:200]))
+        if bad:
+            chk.violation('corr:C15/rule', 'rule-differs', dict(sig0, observable=bad[0]), c, dict(bad[1], property_predicate='see the moments oracles'),
+                          failing_input=False)
+    for i, mr in zip(idx7, r7):
+        c = cases[i]; r = impl[i][1][1]
+        dim = len(c['a'])
+        chk.traces += 1
+        sig0 = dict(boundary=int(c['boundary']), shared_distribution=shared_distribution(c))
+        chk.count('moments:combination with %s component grids' % size_class(len(r['comps'])))
+        # reference: coefficient * tensor product of every dimension's own weights (fresh objects, static method)
+        ref, colliding = [], 0
+        seen = {}
+        for cd in r['comps']:
+            t = [1.0]
+            for d in range(dim):
+                w = [float(x) for x in (cd['ref'][d] if c['boundary'] else cd['ref'][d][1:-1])]
+                t = [x * y for x in t for y in w]
+                key = str(cd['pts'][d])
+                if key in seen and seen[key] != str(c['distrs'][d]):
+                    colliding += 1
+                seen.setdefault(key, str(c['distrs'][d]))
+            ref.extend(x * cd['coeff'] for x in t)
+        if colliding:
+            chk.count('moments:run in which one 1D point list occurs in two differently distributed dimensions')
+        W = [float(x) for x in r['W']]
+        if len(ref) != len(W) or any(abs(x - y) > 1e-12 * (1 + abs(y)) for x, y in zip(W, ref)):
+            j = next((j for j, (x, y) in enumerate(zip(W, ref)) if abs(x - y) > 1e-12 * (1 + abs(y))), None)
+            chk.violation('oracle:moments/combined-weights', 'moments-law', dict(sig0, clause='combined-weights'), c,
+                          dict(property_predicate='the combined weights of the run are not the combination of the tensor products of each dimension\'s own '
+                               'weighted trapezoidal weights (index %s: %s vs %s)' % (j, W[j] if j is not None else len(W),
+                                                                                       ref[j] if j is not None else len(ref))))
+            continue
+        if mr == [0] or sx.is_err(mr):
+            chk.violation('corr:C15/combined', 'combined-differs', dict(sig0, observable='model rejects'), c, dict(model=str(mr)[:200]), failing_input=False)
+            continue
+        mW = [float(sx.q(x)) for x in mr[1]]
+        # tolerance: the 1D bounds propagated through products and the coefficient
+        bounds = []
+        for cd in r['comps']:
+            ws, ts = [], []
+            for d in range(dim):
+                pcase = dict(distr=c['distrs'][d], a=c['a'][d], b=c['b'][d], boundary=c['boundary'], mb=False)
+                pr = dict(pts=cd['pts'][d], moments=cd['moments'][d], static=('ok', cd['ref'][d]))
+                ts.append([float(t) for t in weight_tolerances(pcase, pr, len(cd['pts'][d]), not c['boundary'])])
+                ws.append([float(x) for x in (cd['ref'][d] if c['boundary'] else cd['ref'][d][1:-1])])
+            bounds.extend(x * abs(cd['coeff']) for x in propagate_bounds(ws, ts))
+        if len(mW) != len(W) or any(abs(x - y) > t + 1e-13 * abs(y) for x, y, t in zip(W, mW, bounds)):
+            j = next((j for j, (x, y, t) in enumerate(zip(W, mW, bounds)) if abs(x - y) > t + 1e-13 * abs(y)), None)
+            chk.violation('corr:C15/combined', 'combined-differs', dict(sig0, observable='combined weights'), c,
+                          dict(index=j, impl=W[j] if j is not None else len(W), model=mW[j] if j is not None else len(mW),
+                               property_predicate='holds on this case'), failing_input=False)
+
+
 def shared_distribution(c):
     """Two dimensions with the same distribution description but different domains [a_d,b_d] (uniform / triangle depend on them)."""
     n = len(c['a'])
@@ -573,6 +1252,10 @@ def oracle_moments(c, r):
         return ('expectation-affine', 'E[c f + e] = %.15g, c E[f] + e = %.15g' % (float(E[1]), float(cc * E[0] + e)))
     if abs(V[1] - cc * cc * V[0]) > F(1, 10 ** 9) * scale * scale * (1 + wabs):
         return ('variance-affine', 'Var[c f + e] = %.15g, c^2 Var[f] = %.15g' % (float(V[1]), float(cc * cc * V[0])))
+    if c.get('outputs', 2) == 3:
+        k = F(c['const'])
+        if abs(E[2] - k) > F(1, 10 ** 10) * (1 + abs(k)) * (1 + wabs) or abs(V[2]) > F(1, 10 ** 9) * (1 + k * k) * (1 + wabs):
+            return ('constant-model', 'constant third output %s: E = %.15g, Var = %.3g' % (float(k), float(E[2]), float(V[2])))
     if c['model'] == 'const':
         k = F(c['const'])
         if abs(E[0] - k) > F(1, 10 ** 10) * (1 + abs(k)) * (1 + wabs) or abs(V[0]) > F(1, 10 ** 9) * (1 + k * k) * (1 + wabs):
@@ -611,35 +1294,101 @@ def corpus():
     return w, m
 
 
+def grid_corpus():
+    inf = math.inf
+    return [
+        dict(kind='grid', distrs=[['Triangle', 0.3], ['Uniform']], a=[0.0, 0.0], b=[1.0, 1.0], form='tuples',
+             grids=[dict(boundary=True, mb=False, ctor='kw'), dict(boundary=False, mb=False, ctor='kw')],
+             steps=[dict(g=0, dims=[['dyadic', 2], ['copy', 0]]), dict(g=1, dims=[['dyadic', 3], ['copy', 0]]),
+                    dict(g=0, dims=[['own', 'uniform', 5, [0.0, 0.0, 0.0]], ['prev', 0, 0]]), dict(g=0, dims=[['prev', 0, 0], ['prev', 2, 0]])]),
+        dict(kind='grid', distrs=[['Uniform'], ['Triangle', 0.5], ['Triangle', 0.25]], a=[0.0] * 3, b=[1.0] * 3, form='mixed',
+             grids=[dict(boundary=True, mb=False, ctor='default')],
+             steps=[dict(g=0, dims=[['dyadic', 1], ['copy', 0], ['copy', 0]]), dict(g=0, dims=[['dyadic', 2], ['dyadic', 1], ['copy', 0]])]),
+        dict(kind='grid', distrs=[['Normal', 0.0, 1.0], ['Normal', 0.5, 2.0]], a=[-inf, -inf], b=[inf, inf], form='tuples',
+             grids=[dict(boundary=False, mb=False, ctor='pos')],
+             steps=[dict(g=0, dims=[['own', 'uniform', 7, [0.0] * 5], ['copy', 0]]), dict(g=0, dims=[['own', 'random', 5, [0.3, 0.9, 0.1]], ['prev', 0, 0]])]),
+        dict(kind='grid', distrs=[['Uniform'], ['Uniform']], a=[-1.0, -1.0], b=[3.0, 3.0], form='string',
+             grids=[dict(boundary=False, mb=True, ctor='kw'), dict(boundary=True, mb=False, ctor='default')],
+             steps=[dict(g=0, dims=[['dyadic', 3], ['own', 'left', 6, [0.1, 0.2, 0.3, 0.4]]]), dict(g=1, dims=[['prev', 0, 1], ['prev', 0, 0]]),
+                    dict(g=0, dims=[['prev', 0, 0], ['prev', 0, 1]])]),
+    ]
+
+
 def run(chk):
     chk.coq_obligations()
     rng = chk.rng
     wfix, mfix = corpus()
+    gfix = grid_corpus()
     wcases = wfix + [gen_weight_case(rng) for _ in range(chk.n(300, 10000))]
     mcases = mfix + [gen_moment_case(rng) for _ in range(chk.n(80, 1200))]
     keys, samples = [], []
+    import time
+    t0 = time.time()
+    ph = chk.extra.setdefault('phase_wall_s', {})
     wimpl = run_impl(impl_weights, wcases, limit=120)
+    ph['weights: implementation'] = round(time.time() - t0, 1); t0 = time.time()
     check_weights(chk, wcases, wimpl, keys, samples)
+    ph['weights: model + comparison'] = round(time.time() - t0, 1); t0 = time.time()
+    gcases = gfix + [gen_grid_case(rng) for _ in range(chk.n(140, 2500))]
+    gimpl = run_impl(impl_grid, gcases, limit=200)
+    ph['grid histories: implementation'] = round(time.time() - t0, 1); t0 = time.time()
+    check_grids(chk, gcases, gimpl, keys, samples)
+    ph['grid histories: model + comparison'] = round(time.time() - t0, 1); t0 = time.time()
     mimpl = run_impl(impl_moments, mcases, limit=300)
+    ph['moments: implementation'] = round(time.time() - t0, 1); t0 = time.time()
     check_moments(chk, mcases, mimpl, keys, samples)
-    chk.record_cases(len(wcases) + len(mcases), keys,
-                     'weights: (distribution in uniform/triangle/normal, finite or infinite support, boundary, modified basis for uniform, '
-                     'refinement tree of 1..60 points built with the grid\'s own weighted midpoint, 5 grading styles); moments: adaptive '
-                     'runs (d 1..2, 1..70 evaluations) of a vector model (f, c f + e) incl. sharply peaked / oscillating models in d = 2 whose raw combined '
-                     'variance mom2 - mom1^2 is negative (counted in evidence: raw_variance_negative_cases); non-trivial = >= 3 grid points resp. >= 5 sparse '
-                     'grid points; distinct by all parameters', samples)
+    check_moment_paths(chk, mcases, mimpl)
+    ph['moments: model + comparison'] = round(time.time() - t0, 1)
+    chk.record_cases(len(wcases) + len(mcases) + len(gcases), keys,
+                     'weights: (distribution in uniform/triangle/normal, finite, half-infinite or infinite support, boundary, modified basis for uniform, '
+                     'constructor argument style, refinement tree of 1..60 points (3% of the cases 65..1025) built with the grid\'s own weighted midpoint, '
+                     '5 grading styles, fallback midpoint queries); grid histories: one operation, 1-2 grid objects (boundary on/off), d 1..3, 2-4 set_grid '
+                     'requests whose 1D point lists are shared between differently distributed dimensions / re-used from earlier requests / repeated / '
+                     'replaced by another tree of equal size, every dimension compared with the model, a fresh 1D object and the tensor product; moments: '
+                     'adaptive runs (d 1..3, 1..70 evaluations, optionally continued) of a vector model (f, c f + e[, const]) incl. sharply peaked / '
+                     'oscillating models whose raw combined variance is negative and differently distributed dimensions on one domain, both evaluation '
+                     'paths, combined weights rebuilt from the component grids; non-trivial = >= 3 grid points resp. >= 4 tensor points resp. >= 5 '
+                     'sparse grid points; distinct by all parameters', samples)
+
+
+class _Collector:
+    """Stands in for the Check object during a replay: runs the same comparison / oracle code and collects what it reports."""
+    def __init__(self):
+        self.found = []
+        self.traces = 0
+        self.extra = {}
+
+    def count(self, key, k=1):
+        pass
+
+    def violation(self, check, kind, sig, case, detail, failing_input=True, size=None):
+        self.found.append((check, kind, failing_input, detail))
 
 
 def replay(chk, rep):
     c = rep['case']
+    if c.get('kind') == 'grid':
+        c = {k: v for k, v in c.items() if k != 'focus'}
+        res = run_impl(impl_grid, [c], limit=200)
+        col = _Collector()
+        check_grids(col, [c], res, [], [])
+        for f in col.found:
+            print('reported:', f[0], f[1], 'failing-input' if f[2] else 'correspondence-only', str(f[3])[:600])
+        print('property predicate:', 'violated' if any(f[2] for f in col.found) else 'holds')
+        return 1 if any(f[2] for f in col.found) else 0
     if c.get('kind') == 'moments':
-        st, r = run_impl(impl_moments, [c], limit=300)[0]
+        res = run_impl(impl_moments, [c], limit=300)
+        st, r = res[0]
         print('impl:', st, str(r)[:1500])
         if st == 'ok' and r[0] == 'ok':
             o = oracle_moments(c, r[1])
             print('model:', run_model(15, [(5, [r[1]['integral']])])[0])
             print('property predicate:', o or 'holds')
-            return 1 if o else 0
+            col = _Collector()
+            check_moment_paths(col, [c], res)
+            for f in col.found:
+                print('reported:', f[0], f[1], 'failing-input' if f[2] else 'correspondence-only', str(f[3])[:600])
+            return 1 if o or any(f[2] for f in col.found) else 0
         return 0
     if c.get('kind') == 'mid':
         import numpy as np
